@@ -26,8 +26,8 @@ ARRAY_STYLE = {"txn": "both", "gtxn": "both", "gtxns": "both", "itxn": "both", "
 STR_SAMPLE = {"b": "target_1", "bz": "target_1", "bnz": "target_1", "callsub": "target_1",
               "addr": "7777777777777777777777777777777777777777777777777777Y5HFKQ",
               "byte": "0x0102", "pushbytes": "0x0102", "method": '"foo(uint64)void"', "int": "pay", "pushint": "pay"}
-LIST_SAMPLES = {"intcblock": ["", "1", "1 2 3"], "bytecblock": ["", "0x01", "0x01 0x02 0x03"], "pushints": ["1", "1 2 3"],
-                "pushbytess": ["0x01", "0x01 0x02 0x03"], "switch": ["a", "a b c"], "match": ["a", "a b c"]}
+LIST_SAMPLES = {"intcblock": ["", "1", "1 2 3", "7 7"], "bytecblock": ["", "0x01", "0x01 0x02 0x03", "0x01 0x01"], "pushints": ["1", "1 2 3", "5 5"],
+                "pushbytess": ["0x01", "0x01 0x02 0x03", "0x02 0x02"], "switch": ["a", "a b c", "a a", "a b a"], "match": ["a", "a b c", "a a", "a b a"]}
 
 
 def _spec_ops(ctx):
@@ -232,6 +232,37 @@ def rule_stack_effect(ctx, rep):
             want = _eval_expr(op[key], env)
             rep.check(got == want, rule, f"{_opkey(op)}.{key}{lenpart}", _where(ctx, cls), repr(got), repr(want),
                       why=op.get("note", ""), sample={"opcode": _opkey(op), "class": cls.name, key: repr(got)})
+    # the instruction object the parser builds for a concrete line has the stack effect of that line (immediates and list lengths as written)
+    for r in parsed_rows(ctx):
+        if "cls" not in r:
+            continue
+        op = r["op"]
+        toks = r["line"].split()[1:]
+        env = {}
+        ti = 0
+        for k, kind in enumerate(op["imm"]):
+            if kind == "int":
+                env[f"imm{k}"] = int(toks[ti], 0) if ti < len(toks) and toks[ti].isdigit() else 0
+                ti += 1
+            elif kind == "list":
+                env["len"] = len(toks) - ti
+                ti = len(toks)
+            elif kind in ("none",):
+                pass
+            elif kind == "field":
+                ti = len(toks)
+            else:
+                ti += 1
+        if "list" not in op["imm"]:
+            continue      # scalar immediates are decided symbolically above
+        for attr, key in (("stack_pop_size", "pops"), ("stack_push_size", "pushes")):
+            try:
+                got = w.getattr(r["obj"], attr)
+            except PyRaise as e:
+                got = f"RAISES {e.exc}"
+            want = _eval_expr(op[key], env)
+            rep.check(got == want, rule, f"'{r['line']}'.{key}", _where(ctx, r["cls"]), got, want,
+                      why="the stack effect of the parsed instruction is not that of the source line (list immediates counted as written)")
     # tealer-only classes must not disturb the emulated stack
     spec = ctx.spec("avm_ops.json")
     pseudo = {p["class"]: p for p in spec["pseudo"]}
